@@ -963,7 +963,17 @@ mod pipeline {
         /// to missing output), except for the ones for which
         /// `detached()` was called.  This is equivalent to what the
         /// shell does.
-        pub fn popen(mut self) -> PopenResult<Vec<Popen>> {
+        pub fn popen(self) -> PopenResult<Vec<Popen>> {
+            // The commands started before the failing one are waited for when
+            // they are dropped here (unless detached).
+            self.popen_started().map_err(|(e, _started)| e)
+        }
+
+        // Like popen(), but on failure also hands back the commands that were
+        // started, so that a caller holding further pipe ends of theirs (the
+        // stderr capture pipe of capture/communicate) can release those before
+        // the commands are waited for.
+        fn popen_started(mut self) -> Result<Vec<Popen>, (crate::popen::PopenError, Vec<Popen>)> {
             self.check_no_stdin_data("popen");
             assert!(self.cmds.len() >= 2);
 
@@ -1005,7 +1015,7 @@ mod pipeline {
                             p.stdin.take();
                             p.stdout.take();
                         }
-                        return Err(e);
+                        return Err((e, ret));
                     }
                 }
             }
@@ -1068,7 +1078,17 @@ mod pipeline {
             self = self.stderr_to(err_write);
 
             let stdin_data = self.stdin_data.take();
-            let mut v = self.stdout(Redirection::Pipe).popen()?;
+            let mut v = match self.stdout(Redirection::Pipe).popen_started() {
+                Ok(v) => v,
+                Err((e, started)) => {
+                    // A started command may be blocked writing to the stderr
+                    // capture pipe, which only we could read: close our end
+                    // before the commands are waited for.
+                    drop(err_read);
+                    drop(started);
+                    return Err(e);
+                }
+            };
             let vlen = v.len();
 
             let comm = communicate::communicate(
